@@ -1,10 +1,308 @@
-(* C07 — property statements (placeholder while the pipeline is brought up). *)
+(* C07 — A commit is accepted only with enough distinct valid signatures for that block.
+   Only the property statements; each is closed by [exact] of a lemma of Proofs.v and followed
+   by Print Assumptions.
+
+   Reading guide.  [sv : key -> signmsg -> sig -> bool] is an arbitrary signature check
+   (PubKey.VerifySignature); [sign_msg chain h r bid ts] is the canonical precommit for block
+   [bid] at (chain, h, r) with timestamp ts.  [verify_commit], [verify_commit_light],
+   [verify_commit_light_trusting] are the transcriptions of the three Go entry points with
+   int64 wrap-around.  A validator set is well-formed ([wf_valset]) when no power is negative
+   and the powers sum to at most MaxTotalVotingPower — what ValidatorSet.ValidateBasic /
+   NewValidatorSet / updateTotalVotingPower enforce.
+     good_tally sv chain h r bid vs sigs = sum of the powers of the validators i whose slot i
+       is flagged for the block and whose signature verifies, under validator i's key, for
+       exactly (chain, precommit, h, r, bid, slot timestamp).  Each validator at most once
+       (the pairing is positional).
+     pw vs S = sum of the powers of the validators with index in S. *)
 From Coq Require Import List ZArith NArith Bool.
 From TM Require Import Generated.Consts C07.Model C07.Proofs.
 Import ListNotations.
 Open Scope Z_scope.
 
-Theorem C07_ideal_signature_binds :
-  forall pk m s, ideal_verify pk m s = true -> s = Signed pk m.
-Proof. exact ideal_verify_binds. Qed.
-Print Assumptions C07_ideal_signature_binds.
+(* ---- VerifyCommit: exact acceptance rule ------------------------------------------------ *)
+
+(* Accepted iff one slot per validator, height and block id are the caller's, every non-absent
+   slot has a known flag and a valid signature for the vote it stands for, and the slots flagged
+   for the block carry strictly more than 2/3 of the total (unbounded arithmetic). *)
+Theorem C07_verify_commit_iff :
+  forall (sig : Type) (sv : key -> signmsg -> sig -> bool)
+         (vs : list validator) (chain : Z) (bid : blockid) (h : Z) (c : commit sig),
+    wf_valset vs ->
+    (verify_commit sv vs chain bid h c = R_ok <->
+     length vs = length (c_sigs c) /\ h = c_height c /\ bid = c_bid c /\
+     all_slots_ok sig sv chain c vs (c_sigs c) /\
+     3 * block_tally sig vs (c_sigs c) > 2 * sum_power vs).
+Proof. exact verify_commit_iff. Qed.
+Print Assumptions C07_verify_commit_iff.
+
+(* Accepted only if signatures that verify for exactly (chain, h, commit round, bid), each from
+   the validator at its own position and flagged for the block, exceed 2/3 of the total. *)
+Theorem C07_verify_commit_sound :
+  forall (sig : Type) (sv : key -> signmsg -> sig -> bool)
+         (vs : list validator) (chain : Z) (bid : blockid) (h : Z) (c : commit sig),
+    wf_valset vs ->
+    verify_commit sv vs chain bid h c = R_ok ->
+    length vs = length (c_sigs c) /\ h = c_height c /\ bid = c_bid c /\
+    3 * good_tally sig sv chain h (c_round c) bid vs (c_sigs c) > 2 * sum_power vs.
+Proof. exact verify_commit_sound. Qed.
+Print Assumptions C07_verify_commit_sound.
+
+(* ---- VerifyCommitLight (early exit) ------------------------------------------------------ *)
+
+Theorem C07_verify_commit_light_sound :
+  forall (sig : Type) (sv : key -> signmsg -> sig -> bool)
+         (vs : list validator) (chain : Z) (bid : blockid) (h : Z) (c : commit sig),
+    wf_valset vs ->
+    verify_commit_light sv vs chain bid h c = R_ok ->
+    length vs = length (c_sigs c) /\ h = c_height c /\ bid = c_bid c /\
+    3 * good_tally sig sv chain h (c_round c) bid vs (c_sigs c) > 2 * sum_power vs.
+Proof. exact verify_commit_light_sound. Qed.
+Print Assumptions C07_verify_commit_light_sound.
+
+(* Exact rule: accepted iff some prefix of the slots has all its for-the-block signatures valid
+   and already carries more than 2/3 (nothing after that prefix, and no nil/absent slot, is
+   looked at). *)
+Theorem C07_verify_commit_light_iff :
+  forall (sig : Type) (sv : key -> signmsg -> sig -> bool)
+         (vs : list validator) (chain : Z) (bid : blockid) (h : Z) (c : commit sig),
+    wf_valset vs ->
+    (verify_commit_light sv vs chain bid h c = R_ok <->
+     length vs = length (c_sigs c) /\ h = c_height c /\ bid = c_bid c /\
+     exists n, flagged_valid sig sv chain c (firstn n vs) (firstn n (c_sigs c)) /\
+               3 * block_tally sig (firstn n vs) (firstn n (c_sigs c)) > 2 * sum_power vs).
+Proof. exact verify_commit_light_iff. Qed.
+Print Assumptions C07_verify_commit_light_iff.
+
+(* ---- the two variants agree ---------------------------------------------------------------- *)
+
+Theorem C07_full_implies_light :
+  forall (sig : Type) (sv : key -> signmsg -> sig -> bool)
+         (vs : list validator) (chain : Z) (bid : blockid) (h : Z) (c : commit sig),
+    wf_valset vs ->
+    verify_commit sv vs chain bid h c = R_ok -> verify_commit_light sv vs chain bid h c = R_ok.
+Proof. exact full_implies_light. Qed.
+Print Assumptions C07_full_implies_light.
+
+(* On every commit all of whose (non-absent) signatures are valid, the full and the early-exit
+   variant give the same verdict. *)
+Theorem C07_full_light_agree :
+  forall (sig : Type) (sv : key -> signmsg -> sig -> bool)
+         (vs : list validator) (chain : Z) (bid : blockid) (h : Z) (c : commit sig),
+    wf_valset vs ->
+    all_slots_ok sig sv chain c vs (c_sigs c) ->
+    (verify_commit sv vs chain bid h c = R_ok <-> verify_commit_light sv vs chain bid h c = R_ok).
+Proof. exact full_light_agree. Qed.
+Print Assumptions C07_full_light_agree.
+
+(* ---- VerifyCommitLightTrusting -------------------------------------------------------------- *)
+
+(* Accepted at trust level num/den only if there are DISTINCT members of the set (indices S, no
+   repetition), each with a slot in the commit that is flagged for the block, carries the
+   member's address and a signature valid under the member's key for exactly
+   (chain, commit height, commit round, commit block id), and together they hold strictly more
+   than num/den of the total.  Unknown signers and second slots of a member are not in S.
+   Premise num, den <= MaxInt64: what tmmath.ParseFraction enforces (see
+   C07_trusting_premise_needed below for what happens beyond it, finding F14). *)
+Theorem C07_trusting_sound :
+  forall (sig : Type) (sv : key -> signmsg -> sig -> bool)
+         (vs : list validator) (chain : Z) (c : commit sig) (num den : Z),
+    wf_valset vs -> 0 <= num <= max_int64 -> 0 <= den <= max_int64 ->
+    verify_commit_light_trusting sv vs chain c num den = R_ok ->
+    exists S : list nat,
+      NoDup S /\ Forall (member_signed sig sv chain c vs) S /\
+      den * pw vs S > num * sum_power vs.
+Proof. exact verify_commit_light_trusting_sound. Qed.
+Print Assumptions C07_trusting_sound.
+
+(* ---- what never counts --------------------------------------------------------------------- *)
+
+(* Slots not flagged for the block (absent, nil, any other flag) can be replaced by anything
+   else not flagged for the block without changing the early-exit verdict ... *)
+Theorem C07_never_counted_unflagged_light :
+  forall (sig : Type) (sv : key -> signmsg -> sig -> bool)
+         (vs : list validator) (chain : Z) (bid : blockid) (h : Z) (c : commit sig)
+         (s' : list (commitsig sig)),
+    Forall2 (same_or_unflagged sig) (c_sigs c) s' ->
+    verify_commit_light sv vs chain bid h (with_sigs sig c s') = verify_commit_light sv vs chain bid h c.
+Proof. exact verify_commit_light_ignores_unflagged. Qed.
+Print Assumptions C07_never_counted_unflagged_light.
+
+(* ... and for the trusting variant the same holds for slots not flagged for the block or whose
+   address belongs to no member of the set (unknown signers). *)
+Theorem C07_never_counted_skipped_trusting :
+  forall (sig : Type) (sv : key -> signmsg -> sig -> bool)
+         (vs : list validator) (chain : Z) (c : commit sig) (num den : Z) (s' : list (commitsig sig)),
+    Forall2 (same_or_skipped sig vs) (c_sigs c) s' ->
+    verify_commit_light_trusting sv vs chain (with_sigs sig c s') num den =
+    verify_commit_light_trusting sv vs chain c num den.
+Proof. exact verify_commit_light_trusting_ignores_skipped. Qed.
+Print Assumptions C07_never_counted_skipped_trusting.
+
+(* With symbolic signatures (a signature is the pair of the key that made it and the vote it
+   was made over): a signature made by another key, or over another chain, height, round,
+   block or timestamp, is not a counted slot of good_tally / member_signed. *)
+Theorem C07_other_message_never_counted :
+  forall chain h r bid v (cs : commitsig isig) k ch' h' r' bid' ts',
+    bid <> 0 -> cs_sig cs = Signed k (sign_msg ch' h' r' bid' ts') ->
+    (k <> v_key v \/ ch' <> chain \/ h' <> h \/ r' <> r \/ bid' <> bid \/ ts' <> cs_ts cs) ->
+    good_slot isig ideal_verify chain h r bid v cs = false.
+Proof. exact ideal_other_message_not_counted. Qed.
+Print Assumptions C07_other_message_never_counted.
+
+(* ---- no int64 overflow on well-formed sets ---------------------------------------------------- *)
+
+(* Replacing every int64 operation of the three functions (tally additions, total*2, safeMul's
+   product and negations, the int64(uint64) conversions of the fraction, the division) by exact
+   integer arithmetic does not change any answer: nothing wraps when the set's total is at most
+   MaxTotalVotingPower (and, for the trusting variant, the fraction fits in int64). *)
+Theorem C07_no_overflow :
+  forall (sig : Type) (sv : key -> signmsg -> sig -> bool) (vs : list validator), wf_valset vs ->
+    (forall chain bid h c,
+       verify_commit sv vs chain bid h c = verify_commit_w sig sv idw vs chain bid h c) /\
+    (forall chain bid h c,
+       verify_commit_light sv vs chain bid h c = verify_commit_light_w sig sv idw vs chain bid h c) /\
+    (forall chain c num den, 0 <= num <= max_int64 -> 0 <= den <= max_int64 ->
+       verify_commit_light_trusting sv vs chain c num den =
+       verify_commit_light_trusting_w sig sv idw vs chain c num den).
+Proof.
+  intros sig sv vs Hwf. split; [|split]; intros.
+  - apply verify_commit_nowrap; assumption.
+  - apply verify_commit_light_nowrap; assumption.
+  - apply verify_commit_light_trusting_nowrap; assumption.
+Qed.
+Print Assumptions C07_no_overflow.
+
+(* On a well-formed set TotalVotingPower() does not panic and is the exact sum. *)
+Theorem C07_total_voting_power_exact :
+  forall vs, wf_valset vs -> total_voting_power vs = Some (sum_power vs).
+Proof. exact total_voting_power_wf. Qed.
+Print Assumptions C07_total_voting_power_exact.
+
+(* ---- robustness ------------------------------------------------------------------------------- *)
+
+(* On a well-formed set the early-exit and the trusting variant never panic, whatever the commit;
+   the full variant does not panic when every slot's flag is one of the three defined values
+   (what CommitSig.ValidateBasic checks).  [R_panic] models the Go panics in CommitSig.BlockID
+   (unknown flag), updateTotalVotingPower and an out-of-range validator index. *)
+Theorem C07_no_panic :
+  forall (sig : Type) (sv : key -> signmsg -> sig -> bool)
+         (vs : list validator) (chain : Z) (bid : blockid) (h : Z) (c : commit sig) (num den : Z),
+    wf_valset vs ->
+    verify_commit_light sv vs chain bid h c <> R_panic /\
+    verify_commit_light_trusting sv vs chain c num den <> R_panic /\
+    (forallb cs_flag_known (c_sigs c) = true -> verify_commit sv vs chain bid h c <> R_panic).
+Proof. exact no_panic. Qed.
+Print Assumptions C07_no_panic.
+
+(* When the set has no duplicate address, the distinct member indices delivered by
+   C07_trusting_sound are validators with pairwise distinct addresses. *)
+Theorem C07_members_distinct_addresses :
+  forall (vs : list validator) (S : list nat),
+    NoDup (map v_addr vs) -> NoDup S -> (forall i, In i S -> nth_error vs i <> None) ->
+    NoDup (map (fun i => nth i (map v_addr vs) 0) S).
+Proof. exact members_distinct_addresses. Qed.
+Print Assumptions C07_members_distinct_addresses.
+
+(* ---- non-vacuity, boundaries, and the limit of the trusting theorem (closed computations) ----- *)
+
+Definition ex_vs : list validator :=
+  [ {| v_addr := 1; v_key := 11; v_power := 1 |}; {| v_addr := 2; v_key := 12; v_power := 1 |};
+    {| v_addr := 3; v_key := 13; v_power := 1 |} ].
+
+Definition ex_block (k a ts : Z) : commitsig isig :=
+  {| cs_flag := block_id_flag_commit; cs_addr := a; cs_ts := ts;
+     cs_sig := Signed k (sign_msg 7 10 0 5 ts) |}.
+Definition ex_nil (k a ts : Z) : commitsig isig :=
+  {| cs_flag := block_id_flag_nil; cs_addr := a; cs_ts := ts;
+     cs_sig := Signed k (sign_msg 7 10 0 0 ts) |}.
+Definition ex_absent : commitsig isig :=
+  {| cs_flag := block_id_flag_absent; cs_addr := 0; cs_ts := 0; cs_sig := Garbage |}.
+Definition ex_commit (s : list (commitsig isig)) : commit isig :=
+  {| c_height := 10; c_round := 0; c_bid := 5; c_sigs := s |}.
+
+Lemma ex_vs_wf : wf_valset ex_vs.
+Proof. apply wf_valsetb_wf. vm_compute. reflexivity. Qed.
+
+(* 3 of 3 accepted; exactly 2/3 (2 of 3, third votes nil with a valid signature) is NOT enough:
+   the hypotheses of the theorems are satisfiable and the threshold is strict *)
+Example C07_threshold_nonvacuous :
+  verify_commit ideal_verify ex_vs 7 5 10 (ex_commit [ex_block 11 1 100; ex_block 12 2 101; ex_block 13 3 102]) = R_ok /\
+  verify_commit ideal_verify ex_vs 7 5 10 (ex_commit [ex_block 11 1 100; ex_block 12 2 101; ex_nil 13 3 102]) = R_err_power 2 2 /\
+  verify_commit_light ideal_verify ex_vs 7 5 10 (ex_commit [ex_block 11 1 100; ex_block 12 2 101; ex_nil 13 3 102]) = R_err_power 2 2 /\
+  verify_commit_light ideal_verify ex_vs 7 5 10 (ex_commit [ex_block 11 1 100; ex_block 12 2 101; ex_block 13 3 102]) = R_ok.
+Proof. vm_compute. repeat split; reflexivity. Qed.
+
+(* a signature over another chain / height / block, or by another key, is rejected, never counted *)
+Example C07_other_message_nonvacuous :
+  let other_chain := {| cs_flag := block_id_flag_commit; cs_addr := 3; cs_ts := 102;
+                        cs_sig := Signed 13 (sign_msg 8 10 0 5 102) |} in
+  let other_block := {| cs_flag := block_id_flag_commit; cs_addr := 3; cs_ts := 102;
+                        cs_sig := Signed 13 (sign_msg 7 10 0 6 102) |} in
+  verify_commit ideal_verify ex_vs 7 5 10 (ex_commit [ex_block 11 1 100; ex_block 12 2 101; other_chain]) = R_err_sig 2 /\
+  verify_commit_light ideal_verify ex_vs 7 5 10 (ex_commit [ex_block 11 1 100; ex_block 12 2 101; other_block]) = R_err_sig 2 /\
+  verify_commit ideal_verify ex_vs 7 5 10 (ex_commit [ex_block 11 1 100; ex_block 12 2 101; ex_block 12 3 102]) = R_err_sig 2.
+Proof. vm_compute. repeat split; reflexivity. Qed.
+
+(* the early-exit variant really exits early (garbage after the threshold is not seen), which is
+   why agreement with the full variant is stated for commits whose signatures are all valid *)
+Example C07_light_exits_early :
+  let junk := {| cs_flag := block_id_flag_commit; cs_addr := 3; cs_ts := 0; cs_sig := Garbage |} in
+  let vs4 := ex_vs ++ [{| v_addr := 4; v_key := 14; v_power := 0 |}] in
+  verify_commit_light ideal_verify vs4 7 5 10
+    (ex_commit [ex_block 11 1 100; ex_block 12 2 101; ex_block 13 3 102; junk]) = R_ok /\
+  verify_commit ideal_verify vs4 7 5 10
+    (ex_commit [ex_block 11 1 100; ex_block 12 2 101; ex_block 13 3 102; junk]) = R_err_sig 3.
+Proof. vm_compute. split; reflexivity. Qed.
+
+(* trusting variant: a commit of another validator set (5 slots, two of them members of ex_vs).
+   At level 1/3: one member (1 of 3) is not more than 1/3, two members are; a member signing in
+   two slots is an error, not two votes; an unknown signer is skipped *)
+Example C07_trusting_nonvacuous :
+  verify_commit_light_trusting ideal_verify ex_vs 7
+    (ex_commit [ex_block 99 99 1; ex_block 11 1 100; ex_absent; ex_block 98 98 2; ex_block 13 3 102]) 1 3 = R_ok /\
+  verify_commit_light_trusting ideal_verify ex_vs 7
+    (ex_commit [ex_block 99 99 1; ex_block 11 1 100; ex_absent; ex_block 98 98 2]) 1 3 = R_err_power 1 1 /\
+  verify_commit_light_trusting ideal_verify ex_vs 7
+    (ex_commit [ex_block 11 1 100; ex_block 11 1 101; ex_block 13 3 102]) 1 3 = R_err_double 0 1.
+Proof. vm_compute. repeat split; reflexivity. Qed.
+
+(* F14 — the premise "numerator and denominator fit in int64" of C07_trusting_sound cannot be
+   dropped: with the fraction (2^64-1)/1 the conversions int64(uint64) wrap to -1/1, the needed
+   power becomes negative and ONE member out of three is accepted although the stated level
+   (more than (2^64-1) times the total) is unreachable.  tmmath.ParseFraction and
+   light.ValidateTrustLevel never let such a fraction through (the harness evaluates the real
+   code on such fractions and reports the count separately). *)
+Example C07_trusting_premise_needed :
+  verify_commit_light_trusting ideal_verify ex_vs 7
+    (ex_commit [ex_block 11 1 100; ex_absent; ex_absent]) 18446744073709551615 1 = R_ok /\
+  validate_trust_level 18446744073709551615 1 = false.
+Proof. vm_compute. split; reflexivity. Qed.
+
+(* hypotheses of the agreement and never-counted theorems are satisfiable on non-trivial data *)
+Example C07_agree_nonvacuous :
+  wf_valset ex_vs /\
+  all_slots_ok isig ideal_verify 7 (ex_commit [ex_block 11 1 100; ex_nil 12 2 101; ex_absent]) ex_vs
+               [ex_block 11 1 100; ex_nil 12 2 101; ex_absent] /\
+  Forall2 (same_or_unflagged isig) [ex_block 11 1 100; ex_nil 12 2 101; ex_absent]
+          [ex_block 11 1 100; ex_absent; {| cs_flag := block_id_flag_nil; cs_addr := 77; cs_ts := 5; cs_sig := Garbage |}] /\
+  Forall2 (same_or_skipped isig ex_vs) [ex_block 99 99 1; ex_block 11 1 100] [ex_absent; ex_block 11 1 100].
+Proof.
+  split; [exact ex_vs_wf|]. split; [|split].
+  - unfold all_slots_ok, ex_vs. cbn [combine].
+    constructor; [|constructor; [|constructor; [|constructor]]]; cbn [fst snd].
+    + right. eexists. split; [reflexivity | vm_compute; reflexivity].
+    + right. eexists. split; [reflexivity | vm_compute; reflexivity].
+    + left. reflexivity.
+  - constructor; [left; reflexivity|]. constructor; [right; split; reflexivity|].
+    constructor; [right; split; reflexivity | constructor].
+  - constructor; [|constructor; [left; reflexivity | constructor]].
+    right. split; [right; reflexivity | left; reflexivity].
+Qed.
+
+(* an unknown flag value makes the full variant panic (CommitSig.BlockID) — the premise of the
+   last clause of C07_no_panic is needed; the light variants skip the slot *)
+Example C07_unknown_flag_panics :
+  let odd := {| cs_flag := 4; cs_addr := 3; cs_ts := 102; cs_sig := Signed 13 (sign_msg 7 10 0 5 102) |} in
+  verify_commit ideal_verify ex_vs 7 5 10 (ex_commit [ex_block 11 1 100; ex_block 12 2 101; odd]) = R_panic /\
+  verify_commit_light ideal_verify ex_vs 7 5 10 (ex_commit [ex_block 11 1 100; ex_block 12 2 101; odd]) = R_err_power 2 2.
+Proof. vm_compute. split; reflexivity. Qed.
